@@ -16,7 +16,7 @@ Lemma responses_shape_ok : responses_shape =
    "respType := &StandardType{ baseType: baseType{ name: typePrefix + text, }, Properties: FieldList{}, }";
    "fields := make(map[string]map[string]*openapi3.MediaType)";
    "for mediaType, obj := range resp.Value.Content { schema := obj.Schema tname := o.typeNameFromSchemaRef(schema) if _, ok := fields[tname]; !ok { fields[tname] = make(map[string]*openapi3.MediaType) } fields[tname][mediaType] = obj }";
-   "for _, content := range fields { mtType := mtResp if len(content) > 1 { mtType = mtMultiResp } for mediaType, obj := range content { f, err := o.fieldForMediaType(mediaType, obj, mtType) if f.Type.Name() == OpenAPI_OBJECT { validOperationID := regexp.MustCompile(""^[a-zA-Z_]+$"") if op.OperationID != """" && validOperationID.MatchString(op.OperationID) { f.Type.SetName(fmt.Sprintf(""%s_%s_%s"", method, op.OperationID, statusCode)) } else { f.Type.SetName(fmt.Sprintf(""%s_%s"", method, respType.Name())) } } if err != nil { return err } respType.Properties = append(respType.Properties, f) } }";
+   "for _, content := range fields { mtType := mtResp if len(content) > 1 { mtType = mtMultiResp } for mediaType, obj := range content { f, err := o.fieldForMediaType(mediaType, obj, mtType) if err != nil { return err } if f.Type.Name() == OpenAPI_OBJECT { validOperationID := regexp.MustCompile(""^[a-zA-Z_]+$"") if op.OperationID != """" && validOperationID.MatchString(op.OperationID) { f.Type.SetName(fmt.Sprintf(""%s_%s_%s"", method, op.OperationID, statusCode)) } else { f.Type.SetName(fmt.Sprintf(""%s_%s"", method, respType.Name())) } } respType.Properties = append(respType.Properties, f) } }";
    "for name := range resp.Value.Headers { f := Field{ Name: name, Attrs: []string{""~header""}, } if f.Type == nil { f.Type = StringAlias } respType.Properties = append(respType.Properties, f) }";
    "r := Response{}";
    "if len(respType.Properties) == 1 && respType.Properties[0].Attrs[0] != ""~header"" { r.Type = respType.Properties[0].Type r.Type.AddAttributes(respType.Properties[0].Attrs) } else if len(respType.Properties) > 0 { if err := respType.SortProperties(); err != nil { return err } if existing, found := o.types.Find(respType.Name()); found { if st, ok := existing.(*StandardType); ok && reflect.DeepEqual(st.Properties, respType.Properties) { respType = st } else { respType.SetName(fmt.Sprintf(""%s_%s"", method, respType.Name())) } } o.types.Add(respType) r.Type = respType }";
